@@ -139,7 +139,7 @@ for (a, b, ctxs) in MODES:
 PART = [  # (T, contexts, start)  -- every split point k < N
     ('twins::Q1', ['.?', '..?', '...?', ' .?', '. ?', '??', '???', '.. ?'], 0),
     ('twins::Q2', ['1?', '10?', '10p?', '7 ?', 'w 10?', '1??', 'x?', 'ax?'], 0),
-    ('twins::Q3', ['#?', '#a?', '#ab?', 'x#a?', 'a #b?', '#a b?'], 0),
+    ('twins::Q3', ['#?', '#a?', '#ab?', 'x#a?', 'a #b?', '#a b?', '#ab x?', '#abc x?'], 0),
     ('twins::Q4', ['.?', 'a.?', ';?', ';\n?'], 0),
     ('basic::B1', ['i?', 'if?', 'ifx?', '1?', '1.?', '1.5?', '??', 'a1?'], 0),
     ('basic::B2', ['a?', 'ab?', 'abc?', 'aa?', '??', '???'], 0),
